@@ -11,6 +11,7 @@ from concurrent.futures import ThreadPoolExecutor
 
 V = "/verif"
 CACHE = "/tmp/rml-regress"
+SNAP = V
 
 
 def sh(cmd, cwd=None):
@@ -30,6 +31,8 @@ def variants():
         if f.endswith(".fixdiff"):
             m = re.search(r"-(C\d\d)\.fixdiff$", f)
             out.append(("revert", f, os.path.join(bd, f), True, m.group(1) if m else None))
+        elif f.endswith(".patch") and re.match(r"^C\d\d-", f):
+            out.append(("revert", f, os.path.join(bd, f), False, f[:3]))
     gd = os.path.join(V, "selftest", "benign")
     for f in sorted(os.listdir(gd)):
         if f.endswith((".diff", ".patch")):
@@ -75,7 +78,7 @@ def run_variant(var, props, bk):
     which = props if props else ["all"]
     fired, crashed, tail = {}, False, ""
     for p in which:
-        pr = subprocess.run([os.path.join(V, "check"), p, "--facts", d, "--no-evidence"], cwd=V, stdout=subprocess.PIPE, stderr=subprocess.STDOUT, text=True)
+        pr = subprocess.run([os.path.join(SNAP, "check"), p, "--facts", d, "--no-evidence"], cwd=SNAP, stdout=subprocess.PIPE, stderr=subprocess.STDOUT, text=True)
         for m in re.finditer(r"^  rule (C\d+)\.(\S+) at", pr.stdout, re.M):
             fired.setdefault(m.group(1), set()).add(m.group(1) + "." + m.group(2))
         if "Traceback" in pr.stdout:
@@ -101,6 +104,16 @@ def main():
     subprocess.run([os.path.join(V, "check"), "C01", "--facts", "/nonexistent", "--no-evidence"], stdout=subprocess.DEVNULL, stderr=subprocess.DEVNULL)  # builds the driver if stale
     bk = base_key()
     os.makedirs(os.path.join(CACHE, "facts"), exist_ok=True)
+    # run the rules from a snapshot of the checker, so that editing /verif while this runs does not disturb the run
+    global SNAP
+    SNAP = tempfile.mkdtemp(prefix="rml-regress-snap.")
+    for name in ("check", "rmlsa", "spec", "reviewed_sites.json", "known_findings.json"):
+        src = os.path.join(V, name)
+        if os.path.isdir(src):
+            shutil.copytree(src, os.path.join(SNAP, name), ignore=shutil.ignore_patterns("__pycache__"))
+        else:
+            shutil.copy(src, os.path.join(SNAP, name))
+    os.symlink(os.path.join(V, "driver"), os.path.join(SNAP, "driver"))
     results = {}
     with ThreadPoolExecutor(max_workers=a.jobs) as ex:
         for var, res in ex.map(lambda v: run_variant(v, props, bk), vs):
@@ -120,6 +133,8 @@ def main():
         else:
             if res["fired"]:
                 alarm.append((name, res["fired"]))
+    if SNAP != V:
+        shutil.rmtree(SNAP, ignore_errors=True)
     print("variants: %d   misses: %d   false alarms: %d   errors: %d   crashes: %d" % (len(results), len(miss), len(alarm), len(errs), len(crash)))
     for n, f in miss:
         print("MISS       ", n, {k: v for k, v in f.items()})
